@@ -42,6 +42,11 @@ func (c c19Case) vector() []complex128 {
 		for j := range x {
 			x[j] = complex(r.Float()*2-1, r.Float()*2-1)
 		}
+	case "pm1+i": // a +-1 vector, real everywhere except one entry (Pos) which gets an imaginary part
+		for j := range x {
+			x[j] = complex(float64(2*int(r.Uint64()&1)-1), 0)
+		}
+		x[c.Pos%N] += complex(0, 1)
 	case "pm1":
 		for j := range x {
 			if r.Uint64()&1 == 1 {
@@ -287,9 +292,12 @@ func genC19(t *rapid.T) c19Case {
 		e = rapid.IntRange(13, maxExp).Draw(t, "exp")
 	}
 	N := 1 << uint(e)
-	c := c19Case{Kind: "transform", Exp: e, Input: rapid.SampledFrom([]string{"impulse", "tone", "random", "random", "pm1", "explicit"}).Draw(t, "input"),
+	c := c19Case{Kind: "transform", Exp: e, Input: rapid.SampledFrom([]string{"impulse", "tone", "random", "random", "pm1", "pm1+i", "explicit"}).Draw(t, "input"),
 		Procs: rapid.SampledFrom([]int{0, 0, 1, 2, 3, 5, 6, 7, 12, 16}).Draw(t, "gomaxprocs")}
 	switch c.Input {
+	case "pm1+i":
+		c.Seed = rapid.Uint64().Draw(t, "seed")
+		c.Pos = rapid.SampledFrom([]int{0, N - 1, N / 2, 1, rapid.IntRange(0, N-1).Draw(t, "anypos")}).Draw(t, "pos")
 	case "impulse", "tone":
 		c.Pos = rapid.IntRange(0, N-1).Draw(t, "pos")
 	case "explicit":
